@@ -8,10 +8,12 @@ import (
 	"fmt"
 	"os"
 	"regexp"
+	"strconv"
 	"strings"
 	"time"
 
 	"github.com/google/safehtml/template"
+	tconv "github.com/google/safehtml/template/uncheckedconversions"
 
 	"verif/core"
 	"verif/gen"
@@ -20,7 +22,16 @@ import (
 )
 
 type kase struct {
-	History *hist.History `json:"history"`
+	History *hist.History `json:"history,omitempty"`
+	Racing  *racing       `json:"racing,omitempty"`
+}
+
+// racing describes one Parse-against-first-Execute trial (C07).
+type racing struct {
+	Pad     int    `json:"pad"`      // number of padding actions in the racing Parse text
+	DelayUs int    `json:"delay_us"` // how long the executing goroutine waits before it starts
+	Data    string `json:"data"`
+	Repeat  int    `json:"repeat"`
 }
 
 type cfg struct {
@@ -81,6 +92,18 @@ func replay(c *core.Ctx, cf cfg, raw json.RawMessage) error {
 	if err := json.Unmarshal(raw, &k); err != nil {
 		return err
 	}
+	if k.Racing != nil {
+		n := k.Racing.Repeat
+		if n < 1 {
+			n = 1
+		}
+		for i := 0; i < n; i++ {
+			if !raceOnce(c, *k.Racing, true) {
+				break
+			}
+		}
+		return nil
+	}
 	if k.History == nil {
 		return fmt.Errorf("no history in case")
 	}
@@ -133,6 +156,7 @@ func judge(c *core.Ctx, cf cfg, h *hist.History, verbose bool) {
 	executed := map[*template.Template]bool{}
 	failed := map[*template.Template]bool{} // templates that reported an analysis error
 	sawAnalysisErr, okExecs, hasClone, hasLate := false, 0, false, false
+	clonesSoFar := 0
 	redefined := false // a later definition call may have replaced a must-fail member
 	nInitial := 0
 	for _, op := range h.Ops {
@@ -194,6 +218,9 @@ func judge(c *core.Ctx, cf cfg, h *hist.History, verbose bool) {
 			}
 		case op.Kind == "clone":
 			hasClone = true
+			if res.Ran && !res.IsErr && res.Panic == "" {
+				clonesSoFar++
+			}
 			if cloneSrc != nil && executed[cloneSrc] {
 				c.Count("clone_after_execute", 1)
 				if !res.IsErr && cf.freeze {
@@ -254,6 +281,39 @@ func judge(c *core.Ctx, cf cfg, h *hist.History, verbose bool) {
 						c.Violation(k, "step %d %s gives (%q, err=%q); the same call on a fresh set with the same definitions gives (%q, err=%q)", i, describe(op), res.Out, res.Err, ref.Out, ref.Err)
 						return
 					}
+					if cf.id == "C07" && clonesSoFar > 0 {
+						// clause "Clone yields a duplicate": the clone operation replaced by a rebuild
+						ref2 := hist.ReferenceRebuild(h, real, i, skip)
+						if ref2.Panic == "" {
+							c.Count("compared_with_rebuilt_clone_reference", 1)
+							if ref2.Out != res.Out || ref2.IsErr != res.IsErr {
+								c.Violation(k, "step %d %s gives (%q, err=%q); with every Clone replaced by a set rebuilt from the definitions made before it, the call gives (%q, err=%q)", i, describe(op), res.Out, res.Err, ref2.Out, ref2.Err)
+								return
+							}
+						}
+					}
+					if cf.id == "C07" {
+						// a Parse of a template nothing mentions, made on the same handle just before the call
+						ref3 := hist.ReferencePadded(h, real, i, skip)
+						if ref3.Panic == "" {
+							c.Count("compared_with_padded_reference", 1)
+							if ref3.Out != res.Out || ref3.IsErr != res.IsErr {
+								c.Violation(k, "step %d %s gives (%q, err=%q); on a fresh set with the same definitions followed by %s on that handle the call gives (%q, err=%q)", i, describe(op), res.Out, res.Err, hist.PadText, ref3.Out, ref3.Err)
+								return
+							}
+						}
+						if op.Kind == "exec" || op.Kind == "exechtml" {
+							ref4 := hist.ReferenceByName(h, real, i, skip)
+							if ref4.Panic == "" {
+								c.Count("compared_execute_with_executetemplate_of_own_name", 1)
+								// (ExecuteToHTML drops the partial output of a failing run, the writer of the reference keeps it)
+								if ref4.IsErr != res.IsErr || ref4.Out != res.Out && !(op.Kind == "exechtml" && res.IsErr) {
+									c.Violation(k, "step %d %s gives (%q, err=%q); ExecuteTemplate with the handle's own name, on a fresh set with the same definitions, gives (%q, err=%q)", i, describe(op), res.Out, res.Err, ref4.Out, ref4.Err)
+									return
+								}
+							}
+						}
+					}
 					if cf.sticky && ref.AnalysisErr && (!res.IsErr || res.Out != "" || res.Ticks != 0) {
 						c.Violation(k, "step %d %s: on a fresh set the call reports the analysis error %q, in this history it gives (%q, err=%q, %d bodies run)", i, describe(op), ref.Err, res.Out, res.Err, res.Ticks)
 						return
@@ -312,6 +372,127 @@ func firstLine(s string) string {
 		s = s[:300]
 	}
 	return s
+}
+
+func tt(s string) template.TrustedTemplate {
+	return tconv.TrustedTemplateFromStringKnownToSatisfyTypeContract(s)
+}
+
+// raceOnce starts a Parse that redefines a helper and, on another goroutine, the first
+// Execute of the set. Whichever comes first, the outcome has to be one that a sequential
+// order of the two calls explains: either the Parse succeeded and both executions render the
+// new definition (analysed), or it was refused and both render the old one. It reports
+// whether the trial passed. The delay only shifts the interleaving; the verdict does not
+// depend on time.
+func raceOnce(c *core.Ctx, rc racing, verbose bool) bool {
+	const first = `<b>{{template "x" .}}</b>{{define "x"}}OLD{{end}}`
+	second := `{{define "x"}}{{.}}{{end}}{{define "pad"}}` + strings.Repeat(`<p>{{.}}</p>`, rc.Pad) + `{{end}}`
+	build := func(texts ...string) (*template.Template, error) {
+		t := template.New("root")
+		for _, x := range texts {
+			if _, err := t.ParseFromTrustedTemplate(tt(x)); err != nil {
+				return nil, err
+			}
+		}
+		return t, nil
+	}
+	render := func(t *template.Template) string {
+		var b strings.Builder
+		if err := t.Execute(&b, rc.Data); err != nil {
+			return "error: " + err.Error()
+		}
+		return b.String()
+	}
+	root, err := build(first)
+	if err != nil {
+		c.Count("racing_setup_failed", 1)
+		return true
+	}
+	perr := make(chan error, 1)
+	go func() {
+		_, err := root.ParseFromTrustedTemplate(tt(second))
+		perr <- err
+	}()
+	if rc.DelayUs > 0 {
+		time.Sleep(time.Duration(rc.DelayUs) * time.Microsecond)
+	}
+	out1 := render(root)
+	parseErr := <-perr
+	out2 := render(root)
+	_, lateErr := root.ParseFromTrustedTemplate(tt(`{{define "x"}}LATE{{end}}`))
+	out3 := render(root)
+	var ref *template.Template
+	if parseErr == nil {
+		c.Count("racing_parse_came_first", 1)
+		ref, _ = build(first, second)
+	} else {
+		c.Count("racing_execute_came_first", 1)
+		ref, _ = build(first)
+	}
+	want := render(ref)
+	if verbose {
+		fmt.Printf("  racing Parse: err=%v; Execute during: %q, after: %q, after a late Parse (err=%v): %q; sequential explanation: %q\n", parseErr, out1, out2, lateErr, out3, want)
+	}
+	c.Eval(1)
+	rc.Repeat = 200
+	switch {
+	case out1 != want || out2 != want || out3 != want:
+		c.Violation(kase{Racing: &rc}, "a Parse racing with the first Execute returned err=%v; the executions gave %q, %q and %q, the set with %s gives %q", parseErr, out1, out2, out3, map[bool]string{true: "both definitions", false: "the first definition only"}[parseErr == nil], want)
+		return false
+	case lateErr == nil:
+		c.Violation(kase{Racing: &rc}, "a Parse after the executions succeeded")
+		return false
+	}
+	return true
+}
+
+var quotedName = regexp.MustCompile(`"(?:[^"\\]|\\.)*"`)
+
+// derivedCollision defines, in a generated set, a template that has the name the engine gave
+// to one of its context-specific copies (the names are read from DefinedTemplates after a
+// first run of the same set), executes it first and the members afterwards.
+func derivedCollision(c *core.Ctx, cf cfg, r *core.Rng) {
+	set := gen.GenSet(r, gen.SetOpts{Members: 2 + r.Intn(3)})
+	data := hist.GenData(r, 2)
+	start := func() *hist.History {
+		h := &hist.History{Data: data, NVar: 2}
+		h.Ops = append(h.Ops, hist.Op{Kind: "new", H: -1, Dst: 0, Name: "root"})
+		for _, t := range set.Texts {
+			h.Ops = append(h.Ops, hist.Op{Kind: "parse", H: 0, Dst: 0, Text: t})
+		}
+		return h
+	}
+	probe := start()
+	for _, m := range set.Members {
+		probe.Ops = append(probe.Ops, hist.Op{Kind: "exect", H: 0, Dst: -1, Name: m, Data: 0})
+	}
+	probe.Ops = append(probe.Ops, hist.Op{Kind: "defined", H: 0, Dst: -1})
+	res := hist.Run(probe)
+	var derived []string
+	for _, q := range quotedName.FindAllString(res[len(res)-1].Info, -1) {
+		if n, err := strconv.Unquote(q); err == nil && strings.Contains(n, "$htmltemplate_") && !strings.ContainsAny(n, "\"{}`") {
+			derived = append(derived, n)
+		}
+	}
+	c.Count("derived_names_seen", len(derived))
+	if len(derived) == 0 {
+		return
+	}
+	for n := 0; n < 2; n++ {
+		dn := derived[r.Intn(len(derived))]
+		h := start()
+		body := r.Pick([]string{"{{.}}", "{{.}}<b>'x'</b>", `{{printf "%v" .}}`, "user text"})
+		h.Ops = append(h.Ops, hist.Op{Kind: "parse", H: 0, Dst: 0, Text: `{{define "` + dn + `"}}` + body + `{{end}}`})
+		if r.Intn(4) > 0 {
+			h.Ops = append(h.Ops, hist.Op{Kind: "exect", H: 0, Dst: -1, Name: dn, Data: r.Intn(len(data))})
+		}
+		for i := 0; i < 2+r.Intn(3); i++ {
+			h.Ops = append(h.Ops, hist.Op{Kind: "exect", H: 0, Dst: -1, Name: r.Pick(append([]string{dn}, set.Members...)), Data: r.Intn(len(data))})
+		}
+		c.Count("histories_with_a_template_named_like_a_derived_copy", 1)
+		c.Journal(util.JSON(kase{History: h}))
+		judge(c, cf, h, false)
+	}
 }
 
 // permutations drives, for one generated set with at most four members, every order of
@@ -382,6 +563,19 @@ func run(c *core.Ctx, cf cfg) {
 		rp := c.Rng("permutations")
 		for i := 0; i < c.N(1500, 30000)/c.NShards; i++ {
 			permutations(c, cf, rp)
+		}
+		rd := c.Rng("derived-names")
+		for i := 0; i < c.N(1500, 30000)/c.NShards; i++ {
+			derivedCollision(c, cf, rd)
+		}
+	}
+	if cf.id == "C07" {
+		// a Parse racing with the first execution (freeze clause under concurrency)
+		rr := c.Rng("racing-parse")
+		for i := 0; i < c.N(400, 6000)/c.NShards; i++ {
+			rc := racing{Pad: []int{0, 50, 1000, 20000}[rr.Intn(4)], DelayUs: []int{0, 0, 20, 200, 2000}[rr.Intn(5)], Data: "<script>alert(1)</script>"}
+			c.Journal(util.JSON(kase{Racing: &rc}))
+			raceOnce(c, rc, false)
 		}
 	}
 	deep := 0
